@@ -143,6 +143,7 @@ _p('C09', 'proof', 'DESIGN.md 5/C09',
     "sort/reverse/swap of a vector are exercised under C11 (raw array contracts); here: set_capacity, reserve, shrink_to_fit, resize, at, clear"])
 _p('C17', 'proof', 'DESIGN.md 5/C17',
    [CALLBACK_ASSUME, SIZE_ASSUME,
+    "the relocation of a chain during a rehash (cstl_clean_bucket) consults the pending function once per node through the same fail-stop selection; that is checked on chains of 0..3 nodes with an arbitrary (also out-of-range) function result (bounded, group hash.clean_bucket.*), for a bucket array of any size",
     "cstl_hash_mul: IEEE-754 binary32 semantics as implemented by CBMC's float encoding / cvc5 FP theory; floorf is CBMC's model",
     HIST_ASSUME])
 _p('C19', 'proof', 'DESIGN.md 5/C19',
@@ -260,7 +261,7 @@ TEXT = {
             "contract-based deductive verification: CBMC 6.11 DFCC contracts 'requires stray / ensures false / assigns nothing', SAT back end"),
     'C14': ("Unbounded contracts on every well-formed view (any offset/length/element count, any owner counts): at returns an address inside the live buffer iff index < size, slice aborts iff end < beg or off+end passes the buffer (128-bit arithmetic), new views hold their own owner count, alloc/set yield a view from offset 0 or an empty object under every allocation-failure subset and for unrepresentable nm*sz, release hands an external buffer only to its sole user.",
             "contract-based deductive verification: CBMC 6.11 DFCC function contracts on array.c with memory.c inlined, SAT back end"),
-    'C17': ("Unbounded contract proofs (all keys, all table sizes): cstl_hash_div and cstl_hash_mul return < m; __cstl_hash_get_bucket returns a bucket inside [0,count) or aborts for an arbitrary caller hash; every other bucket-array access in hash.c is index-bounded by loop contracts / flat contracts.",
+    'C17': ("Unbounded contract proofs (all keys, all table sizes): cstl_hash_div and cstl_hash_mul return < m; __cstl_hash_get_bucket returns a bucket inside [0,count) or aborts for an arbitrary caller hash; every other bucket-array access in hash.c is index-bounded by loop contracts / flat contracts; the per-node selection inside the relocation sweep (cstl_clean_bucket) goes through the same fail-stop function and is checked on chains of bounded length only.",
             "contract-based deductive verification: CBMC 6.11 DFCC function + loop contracts, SAT and cvc5 back ends"),
 }
 
